@@ -251,7 +251,7 @@ Print Assumptions C11_powi_exact_flag_every_mode.
 
 Theorem C11_powi_asis_negative_exponent_1ulp : forall B, 2 <= B -> forall p m s e n,
   1 <= p -> n < 0 -> s <> 0 -> is_half_mode m = true -> 2 <= p \/ 5 <= B ->
-  dlen B s <= 2 * powi_work_precision (p + powi_neg_guard_bits_gen no_f32 p) (- n) ->
+  dlen B s <= 2 * powi_work_precision (powi_neg_precision_gen no_f32 p (powi_neg_guard_bits_gen no_f32 p)) (- n) ->
   exists a, powi_asis B p m s e n = Ok a /\
     Accepted B p (powerRZ (fval B s e) n) (aval B a) (is_exact a).
 Proof. exact powi_asis_neg_nearest. Qed.
@@ -336,7 +336,9 @@ Theorem C11_params_guard_digits : forall (F : Type) (O : f32ops F), (forall x, 0
   2 <= exp_series_guard_digits_gen O p B /\ 0 <= exp_pow_guard_digits_gen O p B /\
   1 <= exp_n_gen O p /\ p < exp_m1_pow_precision_gen O p /\ 10 <= powf_guard_digits_gen O p /\
   p + 2 <= iacoth_work_precision_gen O p (iacoth_guard_digits_gen O p B) /\
-  2 <= ln_guard_digits_gen O p B.
+  2 <= ln_guard_digits_gen O p B /\
+  (forall g, p + g <= powi_work_precision_gen O p g /\ p + g <= powi_neg_precision_gen O p g /\
+             p + g <= powf_work_precision_gen O p g).
 Proof. exact @params_guard_digits. Qed.
 Print Assumptions C11_params_guard_digits.
 
